@@ -294,10 +294,24 @@ const (
 	wmPretty
 	wmBinary
 	wmBinaryLST
+	wmTextImp
+	wmPrettyImp
+	wmBinaryImp
 	nWriteModes
 )
 
-var wmNames = []string{"text", "pretty", "binary", "binary-fixed-lst"}
+var wmNames = []string{"text", "pretty", "binary", "binary-fixed-lst", "text-with-imports", "pretty-with-imports", "binary-with-imports"}
+
+// c19Shared is the shared table the "-with-imports" configurations are constructed with: the first half of the
+// document's symbol texts (so that some symbols resolve through the import and some are local), never empty.
+func c19Shared(vals []*model.Value) ion.SharedSymbolTable {
+	texts := model.SymbolTexts(vals)
+	texts = texts[:len(texts)/2]
+	if len(texts) == 0 {
+		texts = []string{"c19_a", "c19_b"}
+	}
+	return ion.NewSharedSymbolTable("c19_shared", 1, texts)
+}
 
 func newWriterFor(mode int, out io.Writer, vals []*model.Value) ion.Writer {
 	switch mode {
@@ -307,6 +321,12 @@ func newWriterFor(mode int, out io.Writer, vals []*model.Value) ion.Writer {
 		return ion.NewTextWriterOpts(out, ion.TextWriterPretty)
 	case wmBinary:
 		return ion.NewBinaryWriter(out)
+	case wmTextImp:
+		return ion.NewTextWriter(out, c19Shared(vals))
+	case wmPrettyImp:
+		return ion.NewTextWriterOpts(out, ion.TextWriterPretty, c19Shared(vals))
+	case wmBinaryImp:
+		return ion.NewBinaryWriter(out, c19Shared(vals))
 	default:
 		texts := model.SymbolTexts(vals)
 		return ion.NewBinaryWriterLST(out, ion.NewLocalSymbolTable(nil, texts))
@@ -559,17 +579,17 @@ func runC19(c *Ctx) {
 			}
 		}
 		if i < 2 {
-			c.Sample(map[string]interface{}{"values": model.FmtAll(vals), "reader_cases": "every split point, 8 chunk patterns x EOF-with-data, read failure at every byte offset (text and binary renderings)", "writer_cases": "write failure at every write call x {persistent, once} x {rejected, partially accepted} x 4 writer configurations"})
+			c.Sample(map[string]interface{}{"values": model.FmtAll(vals), "reader_cases": "every split point, 8 chunk patterns x EOF-with-data, read failure at every byte offset (text and binary renderings)", "writer_cases": "write failure at every write call x {persistent, once} x {rejected, partially accepted} x 7 writer configurations (text, pretty, binary, binary with a fixed table; text, pretty and binary constructed with a shared import)"})
 		}
 	})
 	runC19Directed(c)
-	c.Exhaustive("per document up to 3000 bytes: every single split point; read failure at every byte offset 0..len (documents beyond 3000 bytes: about 150 evenly spread positions plus 4095, 4096, 4097 and 8192); write failure at every write call index (thinned to every third index in the middle of runs longer than 60 calls) in 4 fault models")
+	c.Exhaustive("per document up to 3000 bytes: every single split point; read failure at every byte offset 0..len (documents beyond 3000 bytes: about 150 evenly spread positions plus 4095, 4096, 4097 and 8192); write failure at every write call index (thinned to every third index in the middle of runs longer than 60 calls) in 4 fault models and 7 writer configurations")
 	_ = refsym.System
 }
 
 func init() {
 	Register(&Monitor{ID: "C19", Run: func(c *Ctx) {
-		c.Rule = "documents from both reference producers read through instrumented io.Readers: every split point, byte-at-a-time and mixed chunk sizes, (0,nil) reads, data delivered together with io.EOF -> values and final error string must equal the one-piece read, and so must the results of a Decoder.Decode loop examined only after the stream ended and of a traversal that skips containers and leaves them early; the same traversal over a seekable source (bytes.Reader) and over sources whose Seek fails (a pipe); payloads (strings, lobs, containers) longer than the readers' buffers; a read failure of six kinds (plain error, io.ErrUnexpectedEOF bare and wrapped, closed pipe, timeout, io.ErrNoProgress) injected at every byte offset -> Err() != nil. Value streams written through instrumented io.Writers failing at every write call index (persistent / once, rejected / partially accepted) in 4 writer configurations -> some call up to Finish errs, every later call errs, accepted bytes are a prefix of the fault-free output. Non-trivial: the split/fault position is strictly inside the document / write sequence; distinct by (document, position, model)."
+		c.Rule = "documents from both reference producers read through instrumented io.Readers: every split point, byte-at-a-time and mixed chunk sizes, (0,nil) reads, data delivered together with io.EOF -> values and final error string must equal the one-piece read, and so must the results of a Decoder.Decode loop examined only after the stream ended and of a traversal that skips containers and leaves them early; the same traversal over a seekable source (bytes.Reader) and over sources whose Seek fails (a pipe); payloads (strings, lobs, containers) longer than the readers' buffers; a read failure of six kinds (plain error, io.ErrUnexpectedEOF bare and wrapped, closed pipe, timeout, io.ErrNoProgress) injected at every byte offset -> Err() != nil. Value streams written through instrumented io.Writers failing at every write call index (persistent / once, rejected / partially accepted) in 7 writer configurations (three of them constructed with a shared-table import, whose preamble is a write of its own) -> some call up to Finish errs, every later call errs, accepted bytes are a prefix of the fault-free output. Non-trivial: the split/fault position is strictly inside the document / write sequence; distinct by (document, position, model)."
 		c.Assume("read failures are persistent (an io.Reader that failed keeps failing); write failures use both models")
 		runC19(c)
 	}, Replay: func(c *Ctx, v *Violation) string {
